@@ -51,7 +51,9 @@ type c04Tok struct {
 	numUses  int
 	cubby    bool
 	secrets  []string
-	late     bool // created during the concurrent phase
+	leases   []string // lease ids of the secrets issued under it
+	tokLease string   // lease id of the token itself
+	late     bool     // created during the concurrent phase
 	task     string // the client task that created it (late tokens)
 }
 
@@ -120,11 +122,15 @@ func runC04(rc *RunCtx) {
 		if orphan {
 			path = "auth/token/create-orphan"
 		}
+		leasesBefore := disk.RawKeys("sys/expire/id/auth/token/")
 		resp, err := h.Do(tag, Req{Op: logical.UpdateOperation, Path: path, Token: tokenFor, Data: data})
 		if err != nil || resp == nil || resp.Auth == nil {
 			return nil
 		}
 		t.id, t.acc = resp.Auth.ClientToken, resp.Auth.Accessor
+		if nl := added(disk.RawKeys("sys/expire/id/auth/token/"), leasesBefore); len(nl) == 1 {
+			t.tokLease = strings.TrimPrefix(nl[0], "sys/expire/id/")
+		}
 		if parent != nil {
 			parent.children = append(parent.children, t)
 		}
@@ -163,6 +169,9 @@ func runC04(rc *RunCtx) {
 				if id, ok := resp.Data["secret_id"].(string); ok {
 					t.secrets = append(t.secrets, id)
 				}
+				if resp.Secret != nil {
+					t.leases = append(t.leases, resp.Secret.LeaseID)
+				}
 			}
 		}
 		if tp.Pick(2) == 0 {
@@ -182,7 +191,10 @@ func runC04(rc *RunCtx) {
 	x := all[tp.Pick(len(all))]
 	var sub []*c04Tok
 	x.subtree(&sub)
-	method := []string{"revoke", "self", "accessor", "orphan"}[tp.Pick(4)]
+	method := []string{"revoke", "self", "accessor", "orphan", "lease"}[tp.Pick(5)]
+	if method == "lease" && x.tokLease == "" {
+		method = "revoke"
+	}
 	if expiry {
 		method = "expiry"
 	}
@@ -194,19 +206,21 @@ func runC04(rc *RunCtx) {
 		tries     int
 	}
 	var revs []*result
-	revokeOnce := func(tag string) (bool, string) {
+	revokeOn := func(hh *CoreH, tag string) (bool, string) {
 		var r Req
 		switch method {
+		case "lease": // through the token's own lease
+			r = Req{Op: logical.UpdateOperation, Path: "sys/leases/revoke", Token: hh.Root, Data: map[string]any{"lease_id": x.tokLease}}
 		case "revoke":
-			r = Req{Op: logical.UpdateOperation, Path: "auth/token/revoke", Token: h.Root, Data: map[string]any{"token": x.id}}
+			r = Req{Op: logical.UpdateOperation, Path: "auth/token/revoke", Token: hh.Root, Data: map[string]any{"token": x.id}}
 		case "self":
 			r = Req{Op: logical.UpdateOperation, Path: "auth/token/revoke-self", Token: x.id}
 		case "accessor":
-			r = Req{Op: logical.UpdateOperation, Path: "auth/token/revoke-accessor", Token: h.Root, Data: map[string]any{"accessor": x.acc}}
+			r = Req{Op: logical.UpdateOperation, Path: "auth/token/revoke-accessor", Token: hh.Root, Data: map[string]any{"accessor": x.acc}}
 		case "orphan":
-			r = Req{Op: logical.UpdateOperation, Path: "auth/token/revoke-orphan", Token: h.Root, Data: map[string]any{"token": x.id}}
+			r = Req{Op: logical.UpdateOperation, Path: "auth/token/revoke-orphan", Token: hh.Root, Data: map[string]any{"token": x.id}}
 		}
-		resp, err := h.Do(tag, r)
+		resp, err := hh.Do(tag, r)
 		if err != nil {
 			return false, err.Error()
 		}
@@ -215,6 +229,7 @@ func runC04(rc *RunCtx) {
 		}
 		return true, ""
 	}
+	revokeOnce := func(tag string) (bool, string) { return revokeOn(h, tag) }
 	nRev := 1 + tp.Pick(2)
 	if expiry {
 		nRev = 0
@@ -238,6 +253,7 @@ func runC04(rc *RunCtx) {
 		s.SetFaults(30, 2, FaultErrNA)
 	}
 	retried := false
+	logFrom := disk.LogLen()
 	s.SwarmFreeze()
 	rc.Cfg("sched", fmt.Sprintf("stall=%d yield_on_release=%v", s.FreezePermille, s.YieldOnRelease))
 	s.SetControlled()
@@ -601,6 +617,59 @@ func runC04(rc *RunCtx) {
 	old.Shutdown()
 	if !probeDead(h, "after-restart") {
 		return
+	}
+	// ---- a crash at any point of the revocation, then the revocation is
+	// issued again on the restarted node: "an earlier revocation attempt was
+	// interrupted ... and across restarts". Every durable prefix of the phase
+	// above (sampled when there are many) becomes a fresh node; the client,
+	// who got no answer, repeats the request until it is acknowledged (or the
+	// token is reported gone); afterwards the whole tree is dead there too.
+	if !expiry && !faulty && nRev == 1 && tp.Pick(2) == 0 {
+		to := disk.LogLen()
+		stride := 1
+		if to-logFrom > 16 {
+			stride = (to - logFrom + 15) / 16
+		}
+		for k := logFrom + tp.Pick(stride); k < to && s.Viol == nil; k += stride {
+			fd := disk.ForkAt(k, s)
+			ch, err := Reboot(fd, h)
+			if err != nil {
+				s.Violate("C04", "unbootable-after-crash", map[string]any{"method": method}, "reboot on write prefix %d of the revocation phase failed: %v", k-logFrom, err)
+				return
+			}
+			acked := false
+			for try := 0; try < 4 && !acked; try++ {
+				// only a revocation that REPORTS success counts (a half-revoked
+				// token refusing its own revoke-self is not an acknowledgement)
+				acked, _ = revokeOn(ch, fmt.Sprintf("again%d", try))
+			}
+			s.SetControlled()
+			s.Drain(3*time.Minute, 10*time.Second)
+			s.PassThrough()
+			s.Faults["crash"]++
+			if acked {
+				if !probeDead(ch, fmt.Sprintf("after a crash at write %d of %d of the revocation phase and a repeated revocation", k-logFrom, to-logFrom)) {
+					ch.Shutdown()
+					return
+				}
+				// leases of the dead tokens are gone on the restarted node as well
+				for _, d := range dead {
+					for _, lid := range d.leases {
+						lr, lerr := ch.Do("leasechk", Req{Op: logical.UpdateOperation, Path: "sys/leases/lookup", Token: ch.Root, Data: map[string]any{"lease_id": lid}})
+						if lerr == nil && lr != nil && !lr.IsError() && lr.Data != nil {
+							s.Violate("C04", "lease-not-revoked-with-token", map[string]any{"method": method, "lease_registered_after_revocation_listed_leases": false, "after_crash_and_repeated_revocation": true},
+								"after a crash at write %d of %d of the revocation phase and a repeated, acknowledged revocation of %s the lease %s of dead token %s still exists: %v", k-logFrom, to-logFrom, x.name, lid, d.name, lr.Data)
+							ch.Shutdown()
+							return
+						}
+					}
+				}
+				s.Probe("crash_prefix_then_revoked_again")
+			} else {
+				s.Probe("repeated_revocation_never_acknowledged")
+			}
+			ch.Shutdown()
+		}
 	}
 	rc.Res.Sample = map[string]any{"tokens": len(all), "target": x.name, "method": method, "dead": len(dead), "plan": plan, "late_children": len(late)}
 	s.ProbeN("late_children", len(late))
